@@ -17,6 +17,11 @@ unsafe impl GlobalAlloc for Counting {
 }
 fn peak_during<T>(f: impl FnOnce() -> T) -> (T, usize) { let base = CUR.load(Ordering::Relaxed); PEAK.store(base, Ordering::Relaxed); let r = f(); (r, PEAK.load(Ordering::Relaxed).saturating_sub(base)) }
 
+/// a reader that hands over at most k bytes per read() call
+struct Dribble<R> { inner: R, k: usize }
+impl<R: std::io::Read> std::io::Read for Dribble<R> { fn read(&mut self, buf: &mut [u8]) -> std::io::Result<usize> { let n = buf.len().min(self.k); self.inner.read(&mut buf[..n]) } }
+impl<R: std::io::Seek> std::io::Seek for Dribble<R> { fn seek(&mut self, p: std::io::SeekFrom) -> std::io::Result<u64> { self.inner.seek(p) } }
+
 #[derive(Clone, Copy, PartialEq)]
 enum Fmt { Pth, Smx }
 fn parse_write(fmt: Fmt, b: &[u8]) -> Option<Result<(Vec<u8>, String, usize), ()>> {
@@ -80,6 +85,12 @@ pub fn run(a: &Args) {
                     let mut pre = vec![0xEEu8; off]; pre.extend_from_slice(b);
                     let at = guard(|| { let mut c = Cursor::new(&pre[..]); c.set_position(off as u64); match fmt { Fmt::Pth => Pth::read(&mut c).ok().map(|p| { let mut o = Cursor::new(vec![0xEEu8; off]); o.set_position(off as u64); let _ = p.write(&mut o); (format!("{:?}", p), c.position() as usize - off, o.into_inner()[off..].to_vec()) }), Fmt::Smx => Smx::read(&mut c).ok().map(|p| { let mut o = Cursor::new(vec![0xEEu8; off]); o.set_position(off as u64); let _ = p.write(&mut o); (format!("{:?}", p), c.position() as usize - off, o.into_inner()[off..].to_vec()) }) } });
                     match at { Some(Some((d2, p2, w2))) if d2 == dbg && p2 == pos && w2 == w => {}, Some(Some((d2, p2, w2))) => { st.fail(format!("[C17] the same {tag} image at stream offset {off}: {}", if d2 != dbg { "parses to a different structure".to_string() } else if p2 != pos { format!("consumes {p2} bytes instead of {pos}") } else { format!("is written as {} bytes that differ from the {} written at offset 0", w2.len(), w.len()) }), id.clone()); break; }, Some(None) => { st.fail(format!("[C17] the same {tag} image at stream offset {off} is rejected"), id.clone()); break; }, None => { st.fail(format!("[C17] the same {tag} image at stream offset {off} makes the parser or writer panic"), id.clone()); break; } }
+                } }
+                // ... and however the reader hands the bytes over: a reader that returns 1 or 7 bytes per read() call (a pipe, a BufReader at its
+                // buffer boundary, a decompressor) gives the same structure
+                if b.len() <= 4096 { for k in [1usize, 7] {
+                    let d2 = guard(|| { let mut r = Dribble { inner: Cursor::new(b), k }; match fmt { Fmt::Pth => Pth::read(&mut r).ok().map(|p| format!("{:?}", p)), Fmt::Smx => Smx::read(&mut r).ok().map(|p| format!("{:?}", p)) } });
+                    match d2 { Some(Some(d2)) if d2 == dbg => {}, Some(Some(_)) => { st.fail(format!("[C17] the same {tag} file read {k} byte(s) at a time parses to a different structure"), id.clone()); break; }, Some(None) => { st.fail(format!("[C17] the same {tag} file read {k} byte(s) at a time is rejected"), id.clone()); break; }, None => { st.fail(format!("[C17] the same {tag} file read {k} byte(s) at a time makes the parser panic"), id.clone()); break; } }
                 } }
                 if canonical && (pos != b.len() || w != b) { st.fail(format!("[C17] a canonical {tag} file of {} bytes re-writes to {} bytes / differs (consumed {pos})", b.len(), w.len()), id.clone()); }
                 match parse_write(fmt, &w) { Some(Ok((w2, dbg2, _))) => { if dbg2 != dbg { st.fail(format!("[C17] parse(write(parse({tag}))) differs from parse"), id.clone()); } if w2 != w { st.fail("[C17] second write differs".into(), id.clone()); } }, _ => st.fail(format!("[C17] a written {tag} file does not parse"), id.clone()) }
